@@ -23,6 +23,7 @@
 //   mrd <s> <m> <addr> <c>        asynchronous read port created inside ClockScope(c)
 //   mwr <m> <c> <addr> <data>     write port clocked by c
 //   clk2sig <s> <c>               Clock::clkSignal() (bit replicated to 4 bits)
+//   clkdrive <c> <s> both|exp|sim   Clock::overrideClkWith(bit 0 of s) in both views / export view only / simulation view only
 #include "vh.h"
 #include <gatery/hlim/postprocessing/CDCDetection.h>
 #include <gatery/hlim/Subnet.h>
@@ -76,7 +77,8 @@ static void dumpCircuit(hlim::Circuit &circuit, const std::string &design, const
 		hlim::Clock *c = circuit.getClocks()[i].get();
 		auto f = c->absoluteFrequency();
 		out << "clock " << i << " parent=" << clkStr(c->getParentClock())
-			<< " self=" << ((c->isSelfDriven(true, true) && c->isSelfDriven(false, true)) ? 1 : 0)
+			<< " selfsim=" << (c->isSelfDriven(true, true) ? 1 : 0)
+			<< " selfexp=" << (c->isSelfDriven(false, true) ? 1 : 0)
 			<< " name=" << nameId(c->getName())
 			<< " fnum=" << f.numerator() << " fden=" << f.denominator()
 			<< " phase=" << (c->getPhaseSynchronousWithParent() ? 1 : 0)
@@ -250,6 +252,18 @@ struct Interp {
 		} else if (c == "mwr") {
 			ClockScope cs(clk(t[2]));
 			(*mems.at(std::stoi(t[1])))[sig(t[3])] = sig(t[4]);
+		} else if (c == "clkdrive") {
+			// clock net driven by logic: in both views, or in one view only (the idiom of ExternalModule::addClockOut / IBUFDS:
+			// an unassigned dummy whose export (or simulation) value is overridden)
+			Bit s = sig(t[2])[0];
+			if (t[3] == "both") clk(t[1]).overrideClkWith(s);
+			else {
+				Bit dummy;
+				if (t[3] == "exp") dummy.exportOverride(s);
+				else if (t[3] == "sim") dummy.simulationOverride(s);
+				else throw std::runtime_error("bad clkdrive mode " + t[3]);
+				clk(t[1]).overrideClkWith(dummy);
+			}
 		} else if (c == "clk2sig") {
 			Bit b = clk(t[2]).clkSignal();
 			UInt v = cat(b, b, b, b);
